@@ -677,7 +677,7 @@ func genFingerOrder() {
 		"filepath.Base", "filepath.Rel", "filepath.ToSlash", "filepath.Join", "io.CopyBuffer", "xxh3.New", "(xxh3.New).Sum128", "sort.Strings",
 		"execext.ExpandFields", "execext.RunCommand", "(&CheckerConfig{}).statusChecker.IsUpToDate",
 		"(&CheckerConfig{}).sourcesChecker.IsUpToDate", "NewSourcesChecker", "NewStatusChecker", "t.Name",
-		"strings.TrimSpace", "append", "stateFilename", "fmt.Sprintf", "xxh3.HashString",
+		"strings.TrimSpace", "append", "stateFilename", "checksumFilename", "fmt.Sprintf", "xxh3.HashString",
 		"(func·0)") // the closure `touchMarker` of TimestampChecker.IsUpToDate: the first function literal of the body
 	var swallowed [][2]string
 	for _, f := range [][2]string{
@@ -689,6 +689,7 @@ func genFingerOrder() {
 		{"TimestampChecker.OnError", "timestampOnError"},
 		{"TimestampChecker.timestampFilePath", "timestampPath"},
 		{"stateFilename", "stateFilename"},
+		{"checksumFilename", "checksumFilename"},
 		{"IsTaskUpToDate", "isTaskUpToDate"},
 		{"Globs", "globs"},
 		{"glob", "glob"},
@@ -793,8 +794,8 @@ func genFingerOrder() {
 					return true
 				}
 				switch src(ce.Fun) {
-				case "normalizeFilename", "stateFilename":
-					// which function names the state file, and of what: `stateFilename(t.Name())`
+				case "normalizeFilename", "stateFilename", "checksumFilename":
+					// which function names the state file, and of what: `checksumFilename(t)`, `stateFilename(t.Task)`
 					key = src(ce.Fun) + "(" + srcList(ce.Args) + ")"
 				case "filepath.Join":
 					var lits []string
